@@ -256,7 +256,7 @@ func (e *ethAdaptor) Connect(urls []string, t time.Time) (err error) {
 		auth, err := bind.NewKeyedTransactorWithChainID(e.key.PrivateKey, e.chainID)
 		auth.GasLimit = e.gasLimit
 		if e.gasPrice != 0 {
-			auth.GasPrice = big.NewInt(int64(e.gasPrice))
+			auth.GasPrice = new(big.Int).SetUint64(e.gasPrice)
 		}
 		auth.Context = ctx
 
@@ -297,7 +297,7 @@ func (e *ethAdaptor) Connect(urls []string, t time.Time) (err error) {
 				auth, err := bind.NewKeyedTransactorWithChainID(e.key.PrivateKey, e.chainID)
 				auth.GasLimit = e.gasLimit
 				if e.gasPrice != 0 {
-					auth.GasPrice = big.NewInt(int64(e.gasPrice))
+					auth.GasPrice = new(big.Int).SetUint64(e.gasPrice)
 				}
 				auth.Context = ctx
 
